@@ -79,6 +79,12 @@ type Net struct {
 	Spins     []string
 	// LogOff disables event logging (enumerations that do not need it).
 	LogOff bool
+	// ModelReusePort: sockets created through a ListenConfig / Dialer that carries a Control
+	// function (pion's reuseport.Control sets SO_REUSEADDR + SO_REUSEPORT) may share a local
+	// address with other such sockets, as on Linux. Off by default: every bind is exclusive.
+	ModelReusePort bool
+	udpExtra       map[string][]*UDPSock
+	lstExtra       map[string][]*Listener
 }
 
 // New creates an empty network.
@@ -133,6 +139,9 @@ func (n *Net) OpenUDP() []string {
 	out := make([]string, 0, len(n.udp))
 	for k := range n.udp {
 		out = append(out, k)
+		for range n.udpExtra[k] {
+			out = append(out, k)
+		}
 	}
 	sort.Strings(out)
 
@@ -162,6 +171,9 @@ func (n *Net) OpenListeners() []string {
 	out := make([]string, 0, len(n.lst))
 	for k := range n.lst {
 		out = append(out, k)
+		for range n.lstExtra[k] {
+			out = append(out, k)
+		}
 	}
 	sort.Strings(out)
 
@@ -251,10 +263,15 @@ type UDPSock struct {
 	calls    int // progress monitor
 	// Manual sockets are harness endpoints: nothing reads them but Drain.
 	Reads int
+	reuse bool // bound with SO_REUSEPORT (ModelReusePort)
 }
 
 // ListenUDP binds a UDP socket. Port 0 picks the lowest free port >= 49152.
 func (n *Net) ListenUDP(network string, laddr *net.UDPAddr) (*UDPSock, error) {
+	return n.listenUDP(network, laddr, false)
+}
+
+func (n *Net) listenUDP(network string, laddr *net.UDPAddr, reuse bool) (*UDPSock, error) {
 	n.mu.Lock()
 	defer n.mu.Unlock()
 	ip := laddr.IP
@@ -278,12 +295,21 @@ func (n *Net) ListenUDP(network string, laddr *net.UDPAddr) (*UDPSock, error) {
 	if n.BindFail[k] || n.BindFail[":"+strconv.Itoa(port)] {
 		return nil, errBindFail
 	}
-	if _, ok := n.udp[k]; ok {
-		return nil, errAddrInUse
-	}
 	s := &UDPSock{
 		n: n, addr: &net.UDPAddr{IP: append(net.IP(nil), ip...), Port: port},
-		notify: make(chan struct{}, 1), closed: make(chan struct{}), rdlCh: make(chan struct{}),
+		notify: make(chan struct{}, 1), closed: make(chan struct{}), rdlCh: make(chan struct{}), reuse: reuse,
+	}
+	if ex, ok := n.udp[k]; ok {
+		if !(n.ModelReusePort && reuse && ex.reuse) {
+			return nil, errAddrInUse
+		}
+		if n.udpExtra == nil {
+			n.udpExtra = map[string][]*UDPSock{}
+		}
+		n.udpExtra[k] = append(n.udpExtra[k], s)
+		n.logf(Ev{Kind: "udp-open", Sock: k, Note: "shared (SO_REUSEPORT)"})
+
+		return s, nil
 	}
 	n.udp[k] = s
 	n.logf(Ev{Kind: "udp-open", Sock: k})
@@ -526,6 +552,18 @@ func (s *UDPSock) Close() error {
 	k := key(s.addr.IP, s.addr.Port)
 	if s.n.udp[k] == s {
 		delete(s.n.udp, k)
+		if ex := s.n.udpExtra[k]; len(ex) > 0 {
+			s.n.udp[k] = ex[0]
+			s.n.udpExtra[k] = ex[1:]
+		}
+	} else if ex := s.n.udpExtra[k]; len(ex) > 0 {
+		for i, o := range ex {
+			if o == s {
+				s.n.udpExtra[k] = append(append([]*UDPSock{}, ex[:i]...), ex[i+1:]...)
+
+				break
+			}
+		}
 	}
 	s.n.logf(Ev{Kind: "udp-close", Sock: k})
 
@@ -906,10 +944,15 @@ type Listener struct {
 	closed    chan struct{}
 	isClosed  bool
 	AcceptErr error
+	reuse     bool
 }
 
 // ListenTCPAddr binds a listener.
 func (n *Net) ListenTCPAddr(network string, laddr *net.TCPAddr) (*Listener, error) {
+	return n.listenTCP(network, laddr, false)
+}
+
+func (n *Net) listenTCP(network string, laddr *net.TCPAddr, reuse bool) (*Listener, error) {
 	n.mu.Lock()
 	defer n.mu.Unlock()
 	ip := laddr.IP
@@ -933,11 +976,20 @@ func (n *Net) ListenTCPAddr(network string, laddr *net.TCPAddr) (*Listener, erro
 	if n.BindFail[k] || n.BindFail[":"+strconv.Itoa(port)] {
 		return nil, errBindFail
 	}
-	if _, ok := n.lst[k]; ok {
-		return nil, errAddrInUse
-	}
 	l := &Listener{n: n, addr: &net.TCPAddr{IP: append(net.IP(nil), ip...), Port: port},
-		notify: make(chan struct{}, 1), closed: make(chan struct{})}
+		notify: make(chan struct{}, 1), closed: make(chan struct{}), reuse: reuse}
+	if ex, ok := n.lst[k]; ok {
+		if !(n.ModelReusePort && reuse && ex.reuse) {
+			return nil, errAddrInUse
+		}
+		if n.lstExtra == nil {
+			n.lstExtra = map[string][]*Listener{}
+		}
+		n.lstExtra[k] = append(n.lstExtra[k], l)
+		n.logf(Ev{Kind: "listen", Sock: k, Note: "shared (SO_REUSEPORT)"})
+
+		return l, nil
+	}
 	n.lst[k] = l
 	n.logf(Ev{Kind: "listen", Sock: k})
 
@@ -1047,6 +1099,18 @@ func (l *Listener) Close() error {
 	k := key(l.addr.IP, l.addr.Port)
 	if l.n.lst[k] == l {
 		delete(l.n.lst, k)
+		if ex := l.n.lstExtra[k]; len(ex) > 0 {
+			l.n.lst[k] = ex[0]
+			l.n.lstExtra[k] = ex[1:]
+		}
+	} else if ex := l.n.lstExtra[k]; len(ex) > 0 {
+		for i, o := range ex {
+			if o == l {
+				l.n.lstExtra[k] = append(append([]*Listener{}, ex[:i]...), ex[i+1:]...)
+
+				break
+			}
+		}
 	}
 	l.n.logf(Ev{Kind: "lclose", Sock: k})
 	l.n.mu.Unlock()
@@ -1236,7 +1300,9 @@ func (a netAdapter) Interfaces() ([]*transport.Interface, error)           { ret
 func (a netAdapter) InterfaceByIndex(int) (*transport.Interface, error)     { return nil, errNotImpl }
 func (a netAdapter) InterfaceByName(string) (*transport.Interface, error)   { return nil, errNotImpl }
 func (a netAdapter) CreateDialer(d *net.Dialer) transport.Dialer            { return dialer{a.Net, d} }
-func (a netAdapter) CreateListenConfig(*net.ListenConfig) transport.ListenConfig { return listenCfg{a.Net} }
+func (a netAdapter) CreateListenConfig(c *net.ListenConfig) transport.ListenConfig {
+	return listenCfg{a.Net, c != nil && c.Control != nil}
+}
 
 type dialer struct {
 	n *Net
@@ -1261,7 +1327,10 @@ func (d dialer) Dial(_, address string) (net.Conn, error) {
 	return d.n.DialTCPAddr(l, &net.TCPAddr{IP: ip, Port: port})
 }
 
-type listenCfg struct{ n *Net }
+type listenCfg struct {
+	n     *Net
+	reuse bool // the ListenConfig carries a Control function (SO_REUSEPORT)
+}
 
 func (l listenCfg) Listen(_ context.Context, network, address string) (net.Listener, error) {
 	ip, port, err := splitHostPort(address)
@@ -1269,11 +1338,20 @@ func (l listenCfg) Listen(_ context.Context, network, address string) (net.Liste
 		return nil, err
 	}
 
-	return l.n.ListenTCPAddr(network, &net.TCPAddr{IP: ip, Port: port})
+	return l.n.listenTCP(network, &net.TCPAddr{IP: ip, Port: port}, l.reuse)
 }
 
 func (l listenCfg) ListenPacket(_ context.Context, network, address string) (net.PacketConn, error) {
-	return l.n.ListenPacket(network, address)
+	ip, port, err := splitHostPort(address)
+	if err != nil {
+		return nil, err
+	}
+	s, err := l.n.listenUDP(network, &net.UDPAddr{IP: ip, Port: port}, l.reuse)
+	if err != nil {
+		return nil, err
+	}
+
+	return s, nil
 }
 
 type udpAdapter struct{ *UDPSock }
